@@ -27,4 +27,4 @@ Extraction "../extract/model.ml"
   refs_ok ref_ok
   outcome rule_applies all_rules all_derives
   gen_from_repr gen_from_repr_legacy run_from_repr rustc_discr repr_range discr_ty
-  gen_repr_prog eval_chain run_repr_prog.
+  gen_repr_prog eval_chain run_repr_prog scan_repr.
